@@ -25,7 +25,8 @@ def run(tier, seed):
                         "sequences of %d scoped/unscoped edits (14-operation alphabet incl. depths 1-3, a name bound in two layers, layer "
                         "creation and pruning) on every wrapper x 4 contents; after every step let layers and attribute tree read from the "
                         "output CST must equal the layer model" % (2 if tier == "quick" else 3))
-    r = E.merge(single, seq)
+    text = E.run_edits("C09", tier, seed, case_filter=lambda c: c[3].startswith("@"))
+    r = E.merge(single, seq, text)
     for v in r["violations"]:
         v["what"] = v["what"].replace("C05", "C09", 1)
     return r
@@ -34,4 +35,6 @@ def run(tier, seed):
 def replay(v):
     if "script" in v["inputs"]:
         return E.replay_script("C05", v)
+    if "text outside" in v.get("what", "") or "changed-text" in v.get("signature", ""):
+        return E.replay_edit("C09", v)
     return E.replay_edit("C05", v)
